@@ -22,6 +22,7 @@ mod h_c15;
 mod h_c14;
 mod h_c10;
 mod h_c06;
+mod h_c20;
 
 use std::io::{self, BufRead, Write};
 
@@ -78,6 +79,7 @@ fn dispatch(v: &Val) -> Val {
         1500 => h_c15::run(&l[1]),
         1400 => h_c14::run(&l[1]),
         600 => h_c06::run(&l[1]),
+        2000 => h_c20::run(&l[1]),
         1000 => h_c10::encode(&l[1]),
         1001 => h_c10::decode(&l[1]),
         1002 => h_c10::valid_path(&l[1]),
